@@ -82,6 +82,15 @@ def run(ctx, prop):
                 {"k": "interface", "name": f"IPart{j}", "base": None, "members": [
                     {"k": "method", "name": f"part{j}", "optional": False, "doc": None, "params": []}]}]})
         cases.append({"id": f"C13-multi-include-{k}", "files": files, "main": "main.idl", "incdirs": []})
+    # interface names that differ by case only share one output file in the Rust backend (a listed
+    # finding of C19): WHICH of them the file holds must still be the same on every run
+    cases.append({"id": "C13-casefold", "main": "main.idl", "incdirs": [], "files": [{"path": "main.idl", "nodes": [
+        {"k": "interface", "name": "IWidget", "base": None, "members": [
+            {"k": "method", "name": "paint", "optional": False, "doc": None, "params": [{"dir": "in", "type": "uint32", "arr": None, "name": "colour"}]}]},
+        {"k": "interface", "name": "IWIDGET", "base": None, "members": [
+            {"k": "method", "name": "resize", "optional": False, "doc": None, "params": [{"dir": "in", "type": "uint16", "arr": None, "name": "w"}, {"dir": "out", "type": "uint16", "arr": None, "name": "h"}]}]},
+        {"k": "interface", "name": "Iwidget", "base": None, "members": [
+            {"k": "method", "name": "hide", "optional": False, "doc": None, "params": []}]}]}]})
     oracle_fail, disagree, samples = [], [], []
     hist = {"runs": 0, "cases": 0, "variants_per_backend": 0}
     distinct = set()
@@ -142,8 +151,8 @@ def run(ctx, prop):
                 if not os.path.lexists(flink):
                     os.symlink(os.path.join(rootA, "main.idl"), flink)
                 variants.append(("file-symlink", flink, [os.path.join(rootA, d) for d in inc], tmp))
-                if case["id"].startswith("C13-ambiguous") or case["id"].startswith("C13-multi-include"):
-                    for rep in range(6):
+                if case["id"].startswith(("C13-ambiguous", "C13-multi-include", "C13-casefold")):
+                    for rep in range(12 if case["id"] == "C13-casefold" else 6):
                         variants.append((f"repeat-{rep}", "main.idl", inc, rootA))
                 variants.append(("rel-cwd-root-third", "./main.idl", ["./" + d for d in inc], rootA))
                 variants.append(("abs-cwd-slash", os.path.join(rootA, "main.idl"), [os.path.join(rootA, d) for d in inc], "/"))
@@ -191,6 +200,9 @@ def run(ctx, prop):
                 distinct.add((case["id"], b))
             if len(samples) < 3:
                 samples.append({"case": case["id"], "files": [f["path"] for f in case["files"]], "backends": backends})
+    # ---- "no matter how often it is run": also in ONE process (vlib/history.py)
+    from .. import history as H_
+    H_.history_pass(ctx, oracle_fail, hist)
     return finish(ctx, prop, gate, oracle_fail, disagree, samples, len(distinct), hist,
                   rule="every accepted generated file set (plus struct/interface graphs sized around hash-table growth boundaries) is compiled "
                        "8 times per backend in fresh processes (fresh SipHash keys): three times from the tree root with relative paths, with "
